@@ -50,6 +50,16 @@ def handler(job):
         out["haslegend"] = int(leg is not None)
         out["legtexts"] = [t.get_text() for t in leg.get_texts()] if leg is not None else []
         out["other_artists"] = len(b.lines) + len(b.collections)
+        out["colllabels"] = [str(c.get_label()) for c in a.collections]
+        out["reflabels"] = []
+        if job.get("plot_only"):
+            # reference: the same diagrams without plot_only -- whatever text a diagram's collection carries there (default or given) is the
+            # text it must carry when it is selected by plot_only: a legend entry belongs to the data it annotates
+            fig2, a2 = plt.subplots(1, 1)
+            kw2 = {k_: v_ for k_, v_ in kw.items() if k_ not in ("plot_only", "xy_range")}
+            kw2["ax"] = a2
+            persim.plot_diagrams(arg, **kw2)
+            out["reflabels"] = [str(c.get_label()) for c in a2.collections]
     elif job["kind"] == "landscape":
         from persim import PersLandscapeExact, PersLandscapeApprox
         from persim.landscapes import visuals as lv
